@@ -1,6 +1,6 @@
 """Verification units of the session layer."""
 import z3
-from pyvc.values import SNum, SBytes, SBool
+from pyvc.values import SNum, SBytes, SBool, Obj
 from pyvc.session import Session
 from pyvc.driver import Unit
 from contracts import session as CS, timer as CT
@@ -36,14 +36,39 @@ def build_fsm(it, extra=(), receiver='fsm', pre=None):
     return roots, args, {}, S
 
 
+STATS = ('Opens', 'Notifications', 'Updates', 'Keepalives', 'RouteRefresh')
+
+
 def clause_props(name):
-    """which properties an obligation of a session unit counts for"""
-    if '/post:Inv/I4' in name or 'hold_timer.' in name or 'ka_timer.' in name:
-        return ('C01', 'C03')
-    if 'dict.' in name and ('Notifications' in name or 'Keepalives' in name or 'Opens' in name or
-                            'Updates' in name or 'RouteRefresh' in name):
-        return ('C01', 'C18')
-    return None
+    """which properties an obligation of a session unit counts for (by the clause it states)"""
+    unit = name.split('/', 1)[0]
+    out = set()
+    if 'requires:C12' in name or 'ghost.n_pending' in name or 'C12-' in name:
+        return {'C12'}
+    if 'requires:C13' in name or 'C13-' in name:
+        return {'C13'}
+    if 'C02-' in name:
+        return {'C02'}
+    if 'NoPoison' in name:
+        return {'C02', 'C05'}
+    if 'dict.' in name and any(('dict.' + k) in name for k in STATS):
+        return {'C18'}
+    if '/post:Inv/I3' in name or '/post:Inv/I4' in name or 'hold_timer.' in name or 'ka_timer.' in name or \
+            'keep_alive_time' in name or 'fsm.hold_time' in name:
+        out |= {'C01', 'C03'}
+    if 'outcome' in name or '/variant' in name:
+        out |= {'C01', 'C10'}
+    if unit in ('BGP.parse_buffer', 'BGP.dataReceived') or unit.startswith('loop@'):
+        out |= {'C01', 'C04', 'C10'}
+    if unit in ('FSM.manual_stop', 'BGPPeering.manual_stop', 'BGPPeering.manual_start', 'FSM.manual_start'):
+        out |= {'C01', 'C13'}
+    if unit in ('BGP._open_received', 'BGP.negotiate_hold_time'):
+        out |= {'C01', 'C05'}
+    if unit in ('BGP._update_received',):
+        out |= {'C01', 'C10'}
+    if not out:
+        out = {'C01'}
+    return out
 
 
 def st_in(*states):
@@ -112,8 +137,16 @@ def rx_units(props=ALL_SESSION_PROPS + ('C04', 'C05', 'C10'), rows=None):
                 raise Infeasible()
         roots = [S.fsm, S.peering, it.prog.models.conf, S.P]
         args = [S.P]
+        if name == 'parse_buffer':
+            # named views of the header fields, so that known-finding regions can speak about them
+            b_ = S.buf
+            p.assume(z3.Int('rx_type') == b_.at(18))
+            p.assume(z3.Int('rx_len') == b_.be_int(16, 2))
+            p.assume(z3.Int('rx_buffered') == b_.len)
         if name in ('_open_received', '_update_received', '_keepalive_received'):
-            args += [SNum(z3.Real('timestamp')), SBytes.fresh('msg')]
+            m_ = SBytes.fresh('msg')
+            p.assume(z3.Int('msg_len') == m_.len)
+            args += [SNum(z3.Real('timestamp')), m_]
         elif name == '_notification_received':
             e, sub = SNum(z3.Int('error')), SNum(z3.Int('suberror'))
             p.assume(z3.And(e.t >= 0, e.t <= 255, sub.t >= 0, sub.t <= 255))
@@ -194,3 +227,102 @@ def materialise_update(unit, outcome, model, req):
     body = {0: b'', 1: b'\x00\x00\x00\x00', 2: b'\x00\x00\x00\x04\x40\x01\x01\x07'}[k]
     req['args'][1] = RP.jval(body)
     return req
+
+
+def data_received_unit(props=ALL_SESSION_PROPS + ('C04', 'C10')):
+    from contracts import protocol_rx as RX
+    holder = {}
+
+    def b(it):
+        S = Session(it, with_protocol=True)
+        holder['S'] = S
+        it.loop_rule = RX.dataReceived_loop_rule(S)
+        return [S.fsm, S.peering, it.prog.models.conf, S.P], [S.P, SBytes.fresh('data')], {}, S
+    u = Unit('BGP.dataReceived', CS.BGP + 'dataReceived', b, RX.spec_dataReceived, kind='session', receiver='protocol',
+             method='dataReceived', props=props, clause_props=clause_props)
+    return u
+
+
+def peering_units(props=ALL_SESSION_PROPS + ('C10',)):
+    from contracts import peering as PE
+    units = []
+
+    def mk(q, spec):
+        cls, name = q.split('.')[-2:]
+        recv = {'BGPPeering': 'peering', 'FSM': 'fsm', 'BGP': 'protocol'}[cls]
+
+        def b(it, name=name, recv=recv):
+            p = it.p
+            wp = True if recv == 'protocol' else p.branch(z3.Bool('with_protocol'))
+            S = Session(it, with_protocol=wp)
+            roots = [S.fsm, S.peering, it.prog.models.conf, S.ghost] + ([S.P] if S.P else [])
+            r = {'fsm': S.fsm, 'peering': S.peering, 'protocol': S.P}[recv]
+            args = [r]
+            if name in ('automatic_start', 'manual_start'):
+                args.append(p.branch(z3.Bool('idle_hold')))
+            elif name == 'connection_closed':
+                args.append(S.P if (S.P is not None and p.branch(z3.Bool('pro_is_P'))) else None)
+            elif name == 'clientConnectionFailed':
+                args += [Obj('Connector', {}), Obj('Reason', {})]
+                consume_attempt(it, S)
+            elif name == 'buildProtocol':
+                args.append(Obj('Addr', {'host': '10.0.0.2', 'port': 179}))
+                consume_attempt(it, S)
+            elif name == 'connectionLost':
+                args.append(Obj('Reason', {}))
+            return roots, args, {}, S
+        return Unit('%s.%s' % (cls, name), q, b, spec, kind='session', receiver=recv, method=name, props=props,
+                    clause_props=clause_props)
+    for q, spec in list(PE.HELPER_SPECS.items()) + list(PE.ENTRY_SPECS.items()):
+        units.append(mk(q, spec))
+    return units
+
+
+def consume_attempt(it, S):
+    """T1: buildProtocol / clientConnectionFailed are delivered for an outstanding connectTCP attempt, which
+    thereby stops being outstanding (ghost n_pending)"""
+    n = S.ghost.f['n_pending']
+    if isinstance(n, int):
+        S.ghost.f['n_pending'] = n - 1
+        return
+    it.p.assume(n.t >= 1)
+    S.ghost.f['n_pending'] = it.m.binop(it, 'Sub', n, 1)
+
+
+def tx_units(props=('C16', 'C18')):
+    from contracts import protocol_tx as TX
+    units = []
+
+    def mk(q, spec):
+        name = q.split('.')[-1]
+
+        def b(it, name=name):
+            p = it.p
+            remote = {}
+            if name == 'send_route_refresh':
+                k = p.choose(3, 'rr-cap')
+                if k == 0:
+                    remote = {'cisco_route_refresh': True, 'route_refresh': True, 'afi_safi': [(1, 1), (2, 1)]}
+                elif k == 1:
+                    remote = {'route_refresh': True, 'afi_safi': [(1, 1), (1, 128)]}
+                else:
+                    remote = {'afi_safi': [(1, 1)]}
+            S = Session(it, with_protocol=True)
+            S.caps['remote'] = remote
+            args = [S.P]
+            if name in ('write_tcp_thread', 'send_bin_update'):
+                args.append(SBytes.fresh('octets'))
+            elif name == 'send_update':
+                from pyvc.values import Opaque
+                args.append({'attr': Opaque('attr', 'dict'), 'nlri': Opaque('nlri', 'list'), 'withdraw': Opaque('withdraw', 'list')})
+            elif name == 'send_route_refresh':
+                afi, safi, res = SNum(z3.Int('afi')), SNum(z3.Int('safi')), SNum(z3.Int('res'))
+                p.assume(z3.And(afi.t >= 0, afi.t <= 65535, safi.t >= 0, safi.t <= 255, res.t >= 0, res.t <= 255))
+                args += [afi, safi, res]
+            return [S.fsm, S.peering, it.prog.models.conf, S.P], args, {}, S
+        u = Unit('BGP.' + name, q, b, spec, kind='session', receiver='protocol', method=name, props=props,
+                 clause_props=clause_props)
+        return u
+    for q, spec in TX.TX_SPECS.items():
+        units.append(mk(q, spec))
+    return units
